@@ -172,3 +172,49 @@ Proof.
     rewrite <- E2 in L1. rewrite !zlen_app, zlen_take, zlen_drop in L1 by lia. lia.
   - unfold s_replace_inplace in E1. replace (pos <=? slen l) with true in E1 by lia. discriminate.
 Qed.
+
+(* the iterator-based overloads on a valid range [first, last) of the string (anything else is undefined behaviour):
+   replace(first, last, str | s, count2 | s) is the in-place replace of last - first characters at first *)
+Theorem replace_it_is_inplace s first last src : inv s -> 0 <= first <= last -> last <= get_size s ->
+  exists s', replace_it_m s first last src = Ok s' /\ keeps s s' /\
+    Some (contents s') = s_replace_inplace (contents s) first (last - first) src.
+Proof.
+  intros I Hf Hl. pose proof (contents_len s I) as L. pose proof (zlen_nonneg src) as Hsrc.
+  unfold replace_it_m, s_replace_inplace. change slen with zlen. rewrite L.
+  replace ((0 <=? first) && (first <=? last) && (last <=? get_size s)) with true by lia.
+  replace (first <=? get_size s) with true by lia.
+  set (n := if zlen src <? last - first then zlen src else last - first).
+  assert (En : Z.min (Z.min (last - first) (get_size s - first)) (zlen src) = n) by (unfold n; destruct (zlen src <? last - first) eqn:E; lia).
+  rewrite En.
+  assert (Ln : zlen (firstn (Z.to_nat n) src) = n) by (apply zlen_firstn; unfold n; destruct (zlen src <? last - first) eqn:E; lia).
+  destruct (overwrite_contents s first (firstn (Z.to_nat n) src) I ltac:(lia)) as (b & W & C).
+  { rewrite Ln. unfold n. destruct (zlen src <? last - first) eqn:E; lia. }
+  rewrite W. cbn [rbind]. exists (with_buf s b). split; [reflexivity|]. split.
+  - apply (overwrite_keeps s first (firstn (Z.to_nat n) src) b I); [lia| |exact W].
+    rewrite Ln. unfold n. destruct (zlen src <? last - first) eqn:E; lia.
+  - rewrite C, Ln. reflexivity.
+Qed.
+
+(* replace(first, last, count2, ch): min(count2, last - first) copies of ch at first *)
+Theorem replace_it_fill_is_inplace s first last count2 ch : inv s -> 0 <= first <= last -> last <= get_size s -> 0 <= count2 ->
+  exists s', replace_it_fill_m s first last count2 ch = Ok s' /\ keeps s s' /\
+    Some (contents s') = s_replace_inplace (contents s) first (last - first) (rep count2 ch).
+Proof.
+  intros I Hf Hl Hc. pose proof (contents_len s I) as L.
+  unfold replace_it_fill_m, s_replace_inplace. change slen with zlen. rewrite L.
+  replace ((0 <=? first) && (first <=? last) && (last <=? get_size s)) with true by lia.
+  replace (first <=? get_size s) with true by lia. rewrite min_sz_min.
+  assert (Lr : zlen (rep count2 ch) = count2) by (unfold rep; rewrite zlen_repeat; lia).
+  rewrite Lr.
+  set (n := Z.min (last - first) count2).
+  replace (Z.min (Z.min (last - first) (get_size s - first)) count2) with n by (unfold n; lia).
+  assert (Et : take n (rep count2 ch) = repeat ch (Z.to_nat n)).
+  { unfold take, rep. apply repeat_firstn. unfold n. lia. }
+  rewrite Et.
+  assert (Ln : zlen (repeat ch (Z.to_nat n)) = n) by (rewrite zlen_repeat; unfold n; lia).
+  destruct (overwrite_contents s first (repeat ch (Z.to_nat n)) I ltac:(lia)) as (b & W & C).
+  { rewrite Ln. unfold n. lia. }
+  rewrite W. cbn [rbind]. exists (with_buf s b). split; [reflexivity|]. split.
+  - apply (overwrite_keeps s first (repeat ch (Z.to_nat n)) b I); [lia| |exact W]. rewrite Ln. unfold n. lia.
+  - rewrite C, Ln. reflexivity.
+Qed.
